@@ -22,9 +22,21 @@ PARTIAL = [
     "computed independently in double; the weight<1 gadget does the same for two-pin nets in all five variants). Two-pin nets in "
     "the B2B and clique variants (B2B connects a two-pin net with coincident pins twice) have no least-squares theorem, only "
     "homogeneity and the gadget oracle; penalties are covered by homogeneity only",
-    "Circuit::placeGlobal end to end (NetModel::xTopology/yTopology passing Circuit::netWeight, penalty schedule) is not "
-    "modelled; a handful of forked placeGlobal runs per tier compare circuits differing by a common 2^k factor on net weights and "
-    "initial penalty (oracle PG)",
+    "from the circuit to the solver: NetModel::xTopology/yTopology are modelled (NetTopology.topology: which nets are skipped, "
+    "movable pins with centre offsets, fixed pins folded into clamped min/max, weight of each kept net) and tied to the code by "
+    "an exact correspondence of the stored net list on random circuits; proved for all circuits (over Rat): the explicit, "
+    "order-preserving index map keptIdx from stored nets to circuit nets, that exactly the degenerate nets are skipped, that the "
+    "k-th stored net has the weight and pins of circuit net keptIdx[k] (topology_weights_faithful, topology_pins_faithful), and "
+    "that the system solveStar assembles from that NetModel is the normal-equation system of the quadratic built from the "
+    "circuit's own weights, whose exact solutions minimise it (circuit_star_is_least_squares, circuit_star_solution_minimizes). "
+    "NOT proved: float conversion of coordinates of magnitude >= 2^24 (the model treats (float)pos as exact; generated "
+    "coordinates are small), that the real solver's output solves the system (oracle CL compares "
+    "xTopology(c).solveStar()/yTopology(c).solveStar() with the optimum computed in double from the circuit's accessors, within "
+    "a derived tolerance), and the circuit-level least-squares statement for the re-weighted models (only the NetModel-level "
+    "two_pin_nets_are_least_squares, which composes with topology_weights_faithful but is not restated)",
+    "Circuit::placeGlobal end to end (penalty schedule, density legalisation between solves, exportPlacementX/Y rounding) is "
+    "not modelled; a handful of forked placeGlobal runs per tier compare circuits differing by a common 2^k factor on net "
+    "weights and initial penalty (oracle PG)",
 ]
 
 ASSUMPTIONS = [
@@ -35,6 +47,10 @@ ASSUMPTIONS = [
     "the storage conversion of net weights is read from the declared element type of NetModel::netWeight_ (clang AST); any other "
     "place that could truncate a weight (there is none in the pinned tree: addNet takes float, netWeight() returns float) is "
     "covered by the correspondence and by the oracle, not by the translator",
+    "int -> float conversions in xTopology/yTopology ((float)pos, (float)areaMin, offset - 0.5f*width) are exact: holds for "
+    "coordinates below 2^24 in magnitude, which is the generated domain of the topology stream",
+    "the shared Circuit record (Model/Circuit.lean: pinXOffset/pinYOffset, placedWidth/Height, placementArea) is the one tied "
+    "to Circuit's accessors by the other properties' correspondences and, here, by the topology stream itself",
 ]
 
 EXTRA_TRUSTED = [
@@ -48,10 +64,15 @@ LEVEL_TEXT = (
     "solution set, and the initial star / two-pin system as the normal equations of the documented weighted quadratic with "
     "positive semidefinite matrix (solutions are global minimisers). The weight storage type is translated from the clang AST "
     "on every run and the theorems depend on it; the model is tied to the C++ by an exact triplet/rhs correspondence through "
-    "hook H2 on dyadic inputs; the real CG solver is checked by a scaling / least-squares oracle.")
+    "hook H2 on dyadic inputs; the real CG solver is checked by a scaling / least-squares oracle. The step from the Circuit to "
+    "the NetModel (xTopology/yTopology) is modelled too: theorems give the explicit order-preserving index map from stored nets "
+    "to circuit nets with matching weights and pins and lift the least-squares statement to the circuit's own weights; tied by an "
+    "exact net-list correspondence on random circuits with degenerate nets interleaved, and checked on the real solver through "
+    "the Circuit path (oracle CL).")
 LEVEL_NOTE = (
     "Partial: over Rat, not floats; CG convergence and Eigen are outside the proof (oracle only); finalize regularisation and "
-    "placeGlobal end-to-end not covered by theorems. Trusted: Lean kernel, translator + clang AST for the storage type, hook H2, "
+    "placeGlobal end-to-end (beyond xTopology/yTopology and the single solves) not covered by theorems. Trusted: Lean kernel, translator + clang AST for the storage type, hook H2, "
     "the harness' dense double-precision reference solver.")
 TECHNIQUE = ("Lean 4 proof (structural induction over nets/pins, ring identities per contribution) + translated storage-type fact "
-             "+ exact model/implementation correspondence of the assembled linear system + metamorphic oracle on the real solver")
+             "+ exact model/implementation correspondence of the assembled linear system and of the Circuit -> NetModel net list "
+             "+ metamorphic and least-squares oracles on the real solver (NetModel interface and Circuit path)")
